@@ -21,6 +21,8 @@ CONSTANTS
     MaxPanics = 0
     FixF2 = TRUE
     FixF3 = TRUE
+    InitEnc = "proto"
+    MaxMigrations = 0
 VIEW view
 INVARIANTS
     TypeOK
